@@ -3,7 +3,7 @@ from __future__ import annotations
 
 import random as _random
 
-from dst.session.kernel import EdgeBits, SeededBytes
+from dst.session.kernel import EdgeBits, ModuleLikeRandom, SeededBytes
 
 
 class LightSeams:
@@ -19,7 +19,7 @@ class LightSeams:
         from dst import core as _core
         if not _core.DEBUG_LOG_ON:
             logging.disable(logging.CRITICAL)
-        rng = _random.Random(int(self.run_seed, 16) ^ 0x5EED)
+        rng = ModuleLikeRandom(int(self.run_seed, 16) ^ 0x5EED)
         self.rng = rng
         class _FixedTime:
             def time(self):
